@@ -30,6 +30,11 @@ def run(ctx, rep):
                    "up to length 5 and all malformed item shapes, equals the stated grammar", floor=3)
     rep.rule("V6", "each tomography class accepts exactly the schedules of its own shape (guards of its validator combined with the "
                    "experiment's, enumerated up to length 5) and pins the target's index to 0 at the position it later reads", floor=8)
+    rep.rule("V7", "a schedule that the validators accept is executed with the objects it names: every object list is indexed by the index "
+                   "read from the schedule item of that kind, never by the position of the schedule in the list (rule M3 of C08)", floor=8)
+    from ..report import Relay
+    from .c08 import check_schedule_reads
+    check_schedule_reads(ctx, Relay(rep, {"M3": "V7"}))
     vs = ix.func(X + "_validate_schedules")
     vi = ix.func(X + "_validate_schedule_item")
     vo = ix.func(X + "_validate_schedule_order")
